@@ -17,6 +17,22 @@ from .spec import conv, apply_index, decode_index
 
 EPS = np.finfo(float).eps
 
+# Reach probe for the reverse-mode right-hand-side cache (rhs_checking): the class attribute is wrapped from
+# outside the repository; the wrapper only counts, it never changes what the checker returns.
+from openmdao.solvers.linear import linear_rhs_checker as _lrc     # noqa: E402
+RHS_CACHE = Counter()
+if not getattr(_lrc.LinearRHSChecker.get_solution, '_verif_counted', False):
+    _orig_get_solution = _lrc.LinearRHSChecker.get_solution
+
+    def _counted_get_solution(self, rhs_arr, system):
+        sol, is_zero = _orig_get_solution(self, rhs_arr, system)
+        RHS_CACHE.inc('rhs_cache_lookup')
+        if sol is not None:
+            RHS_CACHE.inc('rhs_cache_hit')
+        return sol, is_zero
+    _counted_get_solution._verif_counted = True
+    _lrc.LinearRHSChecker.get_solution = _counted_get_solution
+
 
 def variant_world(world, variant):
     w = copy.deepcopy(world)
@@ -83,6 +99,7 @@ class Sim:
             self.tol = 1e-5
         self.pending_faults = []
         self._fired_at_setup = 0
+        RHS_CACHE.clear()
         self.stale_outputs = set()     # outputs overwritten by set_val since last run
         self.void = False
 
@@ -113,6 +130,24 @@ class Sim:
         # magnitude-relative atol so that a converged state is recognised as converged on a re-run; the
         # factor leaves room for set_val moving the design point (unit factors up to 1e3)
         return {'atol': 1e-11 * mag, 'rtol': 1e-12, 'maxiter': 300}
+
+    def state_err_bound(self):
+        """Absolute error a nonlinear solver may leave in any output when it stops on its residual norm:
+        |e| <= |(I - M - Jq)^-1| * atol * (largest residual scaling).  Unit factors of 1e3 on the
+        connections of a cycle make this much larger than atol itself.  Zero for run-once worlds."""
+        if all(s_['nl'] == 'runonce' for s_ in self.world['solvers'].values()):
+            return 0.0
+        try:
+            g = float(np.linalg.norm(self.ref.jac_full(self.ref.solve()), 2))
+        except np.linalg.LinAlgError:
+            return 0.0
+        sc = 1.0
+        for c in self.world['comps']:
+            for o in c['outs']:
+                for k in ('res_ref', 'ref'):
+                    if k in o:
+                        sc = max(sc, float(np.max(np.abs(o[k]))))
+        return 2.0 * g * self.nl_tol()['atol'] * sc
 
     def ref_well_posed(self):
         """The reference converges at the current design point and its loop majorant contracts."""
@@ -155,6 +190,14 @@ class Sim:
                         # so the precondition "all solvers converge" is void from here on (not a violation).
                         self.void = True
                         self.probes.inc('broyden_nonconvergence_after_fault_history_void')
+                    elif self.ref.quads and self.world['cycle'] is not None and \
+                            any(t in str(e) for t in ('NL: NLBJ', 'NL: NLBGS')):
+                        # ref_well_posed() establishes contraction at the root only.  For a quadratic map in
+                        # a cycle that says nothing about a fixed-point iteration started from the declared
+                        # initial values or from the previous design point: Jacobi/Gauss-Seidel sweeps may
+                        # leave the basin and blow up (and report it).  No property states that they converge.
+                        self.void = True
+                        self.probes.inc('fixed_point_divergence_in_quadratic_cycle_void')
                     elif self.ref_well_posed():
                         self.V('I-converge', f"op {kind}: AnalysisError without an injected fault at a design point "
                                f"the reference model solves easily: {str(e)[:300]}")
@@ -177,6 +220,8 @@ class Sim:
             self.log.ev('raised', self.name, type(e).__name__)
             self.V('I-exception', f"op {op} raised {type(e).__name__}: {str(e)[:400]} (at {where})",
                    ctx=f"{type(e).__name__}@{where}:{text}")
+        for k_ in list(RHS_CACHE):
+            self.probes.inc(k_, RHS_CACHE.pop(k_))
         fired = len(self.rt.fired) - fired_before
         if fired:
             self.st.inc('faulted_ops')
@@ -521,13 +566,19 @@ class Sim:
                     except np.linalg.LinAlgError:
                         pass
         worst = 0.0
+        bound = self.state_err_bound()
+
+        def off(got, want, e):
+            # beyond the relative tolerance and beyond what the solver's stopping criterion allows
+            return e > self.tol and not (got.shape == want.shape and np.all(np.isfinite(got)) and
+                                         float(np.abs(got - want).max()) <= bound)
         for c in self.world['comps']:
             for o in c['outs']:
                 got = self.p.get_val(self.absn(o['name'])).ravel()
                 want = self.ref.val(o['name'], y)
                 e = relerr(got, want)
                 worst = max(worst, e)
-                if e > self.tol and inv_out:
+                if off(got, want, e) and inv_out:
                     self.V(inv_out, f"output {o['name']} differs from the reference by {e:.3g} (rel): got "
                            f"{got.tolist()} want {want.tolist()}", var=o['name'])
                     return False
@@ -537,7 +588,7 @@ class Sim:
                     got = self.p.get_val(self.absn(i['name']), from_src=False).ravel()
                     want = self.ref.input_val(i['name'], y)
                     e = relerr(got, want)
-                    if e > self.tol:
+                    if off(got, want, e):
                         self.V(inv_in, f"input {i['name']} (src {i.get('src')}, idx {i.get('idx')}, flat "
                                f"{i.get('flat')}, units {i.get('units')}) differs from its source by {e:.3g}: got "
                                f"{got.tolist()} want {want.tolist()}", var=i['name'])
